@@ -1861,7 +1861,9 @@ def rule_c(F):
                 removes.append(t)
         if not removes:
             continue
-        frees = [t for bi, t in mu.calls(f) if "vm::runtime::RuntimeData::free_object" in callee_names(t["func"])]
+        # the objects taken out may be freed in a closure of the function (`.into_iter().for_each(|o| self.free_object(o))`)
+        frees = [t for g in [f] + F.closures_of.get(f.short, []) if g.mir
+                 for bi, t in mu.calls(g) if "vm::runtime::RuntimeData::free_object" in callee_names(t["func"])]
         key = "C05/C/%s/removal-frees" % f.name
         if frees:
             res.append(ok("C05.C", key, f.loc(removes[0].get("ln")), "objects removed from object_list are passed to free_object"))
@@ -1916,6 +1918,12 @@ def drains_object_list(F, g):
     body = inlined(F, g, private_helper(F, (FREE_OBJECT, GC, ALLOC, DEALLOC) + FORWARDERS))
     du = DefUse(body)
     whole = frees = False
+    # free_object may be called from a closure of g or of an inlined helper (iterator adaptors)
+    roots = {g.short} | set(b["term"]["inlined"] for b in body.blocks if b["term"].get("inlined"))
+    for r in roots:
+        for c in F.closures_of.get(r, []):
+            if c.mir and any(FREE_OBJECT in callee_names(t["func"]) for _bi, t in mu.calls(c)):
+                frees = True
     for _bi, t in mu.calls(body):
         nm = callee_names(t["func"])
         if FREE_OBJECT in nm:
